@@ -261,7 +261,7 @@ const (
 
 // C11 builds the check for property C11.
 func C11() *sim.Check {
-	sweep := &sim.Batch{Name: "sweep", Quick: 2500, Thorough: 90000}
+	sweep := &sim.Batch{Name: "sweep", Quick: 6000, Thorough: 150000}
 	sweep.Run = func(c *sim.RunCtx) *sim.Outcome {
 		t := c.T
 		o := c11Opts(t)
